@@ -255,7 +255,18 @@ impl XFuncSpec {
     }
 
     pub(crate) fn rtype(&self, bind: &Bind) -> Arc<XType> {
-        self.ret.clone().resolve_bind(bind, None)
+        // a generic parameter that no argument bound (every argument that mentions it had the
+        // bottom type, e.g. an empty container) is the bottom type in the result, not a dangling
+        // parameter name
+        let mut bind = bind.clone();
+        if let Some(generic_params) = &self.generic_params {
+            for param in generic_params {
+                if bind.get(param).is_none() {
+                    bind.bound_generics.insert(*param, X_UNKNOWN.clone());
+                }
+            }
+        }
+        self.ret.clone().resolve_bind(&bind, None)
     }
 
     pub(crate) fn xtype(&self) -> Arc<XType> {
